@@ -10,3 +10,8 @@ import FhVerif.Props.C40
 import FhVerif.Props.C33
 import FhVerif.Props.C06
 import FhVerif.Props.C01
+import FhVerif.Props.C41
+import FhVerif.Props.C13
+import FhVerif.Props.C25
+import FhVerif.Props.C19
+import FhVerif.Props.C10
